@@ -220,14 +220,19 @@ def gen_method(rng, name, shape, lib, gs, recv_kinds, own_names=False, allow_asy
             plist.append("gr: B")
         if rng.random() < 0.3:
             wtxt = " where G: Clone"
+    # a where-clause alone (a bound on a parameter of the impl block, no parameter of the method's own) makes the method generic too
+    tparams = [n for k, n, _ in gs if k == "type"]
+    whereonly = (not localgen) and allow_localgen and recv in ("&self", "&mut self", "self") and bool(tparams) and rng.random() < 0.12
+    if whereonly:
+        wtxt = " where %s: Clone" % rng.choice(tparams)
     rtxt = {"&self": "&self", "&mut self": "&mut self", "self": "self", "mut self": "mut self", "static": ""}[recv]
     sig_params = ", ".join(([rtxt] if rtxt else []) + plist)
     sig = "%sfn %s%s(%s)%s%s" % ("async " if is_async else "", name, gtxt, sig_params, (" -> " + ret) if ret else "", wtxt)   # = syn::Signature
     doc = rng.choice(["", "", "/// doc line\n    ", "#[doc = \"attr doc\"]\n    "])
     text = "%s%s%s { todo!() }" % (doc, vis + " " if vis else "", sig)
     kind = {"&self": "ref", "&mut self": "ref", "self": "slf", "mut self": "slf", "static": "stat"}[recv]
-    return {"name": name, "shape": shape, "recv": recv, "kind": kind, "params": params, "ret": ret, "async": is_async, "localgen": localgen,
-            "localgen2": localgen2,
+    return {"name": name, "shape": shape, "recv": recv, "kind": kind, "params": params, "ret": ret, "async": is_async, "localgen": localgen or whereonly,
+            "gq": localgen, "whereonly": whereonly, "localgen2": localgen2,
             "vis": vis, "public": vis != "", "sig": sig, "text": text, "self_use": self_use}
 
 
@@ -373,7 +378,7 @@ def field_collision(p):
     """two parameters of one selected method whose flattened field names coincide"""
     for sel in p["selected_sets"]:
         for m in _methods(p, sel):
-            fl = [flat_name(b) for _, _, _, b in m["params"]] + (["gq"] if m["localgen"] else []) + (["gr"] if m.get("localgen2") else [])
+            fl = [flat_name(b) for _, _, _, b in m["params"]] + (["gq"] if m.get("gq") else []) + (["gr"] if m.get("localgen2") else [])
             if len(set(fl)) != len(fl):
                 return m["name"]
     return None
